@@ -22,16 +22,31 @@ else
   out="bin/$lc"
 fi
 mkdir -p bin evidence replays
-# overlay seam: files cmd/<id>/overlay/<dir>__<file>.go are added to $VERIF_REPO/<dir>/<file>.go at build time only
+# overlay seams (E4), applied at build time only, /repo stays untouched:
+#  * cmd/<id>/overlay/<dir>__<file>.go   is added as $VERIF_REPO/<dir>/<file>.go
+#  * cmd/<id>/mapseam.patterns           packages whose map ranges are rewritten to the harness-ordered iterator
 ov=()
+oj="bin/$lc.overlay.${tag:-main}.json"
+echo '{"Replace":{}}' > "$oj"
+if [ -f "cmd/$lc/mapseam.patterns" ]; then
+  go build "${mf[@]}" -o bin/mapseam ./cmd/mapseam || { echo "ERROR mapseam does not build" >&2; exit 2; }
+  msd="$PWD/bin/$lc.mapseam.${tag:-main}"
+  rm -rf "$msd"
+  if ! bin/mapseam "$VERIF_REPO" "$msd" $(cat "cmd/$lc/mapseam.patterns") > "bin/$lc.mapseam.log" 2>&1; then
+    cat "bin/$lc.mapseam.log" >&2
+    echo "ERROR property=$id map-order seam cannot be applied to $VERIF_REPO" >&2
+    exit 2
+  fi
+  cp "$msd/overlay.json" "$oj"
+  export VERIF_MAPSEAM_DIR="$msd"
+fi
 if [ -d "cmd/$lc/overlay" ]; then
-  oj="bin/$lc.overlay.json"
-  { echo '{"Replace":{'; first=1
-    for f in cmd/$lc/overlay/*.go; do
-      rel="$(basename "$f" | sed 's#__#/#g')"
-      [ $first = 1 ] || echo ','; first=0
-      printf '"%s/%s":"%s"' "$VERIF_REPO" "$rel" "$PWD/$f"
-    done; echo '}}'; } > "$oj"
+  for f in cmd/$lc/overlay/*.go; do
+    rel="$(basename "$f" | sed 's#__#/#g')"
+    jq --arg k "$VERIF_REPO/$rel" --arg v "$PWD/$f" '.Replace[$k]=$v' "$oj" > "$oj.tmp" && mv "$oj.tmp" "$oj"
+  done
+fi
+if [ "$(jq '.Replace|length' "$oj")" != 0 ]; then
   ov=(-overlay "$PWD/$oj")
 fi
 if ! go build "${mf[@]}" "${ov[@]}" -o "$out" "./cmd/$lc" 2> "bin/$lc.build.err"; then
